@@ -19,7 +19,7 @@ import numpy as np
 
 from .. import core, geo, motlutil, starutil as su
 
-INVS = ["C03_ExportPose", "C03_ImportPose", "C03_Identity", "C03_HalfSets", "C03_RoundTrip"]
+INVS = ["C03_ExportPose", "C03_ImportPose", "C03_Identity", "C03_HalfSets", "C03_RoundTrip", "C03_OriginalEntries"]
 U = 8
 VERSION = {30: 3.0, 31: 3.1, 40: 4.0}
 DEMO = os.environ.get("VERIF_C03_DEMO", "")
@@ -415,8 +415,55 @@ class Runner:
             elif ok:
                 self.traces.append(({"kind": "ids", "ids": ids, "subsets": [r["subset"] for r in cs["rin"]]}, case, sig,
                                     "imported ids %s for subsets %s" % (ids[:12], [r["subset"] for r in cs["rin"]][:12])))
+        elif op == "listops":
+            return                                  # performed on the live object inside the two operations below
+        elif op in ("exportorig", "reimportorig"):
+            self.orig_case(case, cs, op, v, px, rng, variant, sig)
         else:
             raise core.MachineryError("unknown op %r" % op)
+
+    def orig_case(self, case, cs, op, v, px, rng, variant, sig):
+        """import RELION data -> clean / re-order the list -> export with use_original_entries=True (-> import again):
+        row j of the export must carry the original names AND the pose of the j-th particle of the list."""
+        from cryocat import cryomotl
+        ctx = self.ctx
+        named = bool(cs["fmt"]["named"])
+        with_px = variant % 2 == 0
+        table = relion_df_from_rin(cs["rin"], case["innames"], v, px, rng, with_px)
+        sig = dict(sig, ops=[h["op"] for h in cs["hist"]])
+
+        def chain():
+            if variant % 3 == 2:
+                path = os.path.join(ctx.workdir, "rorig_%d.star" % os.getpid())
+                independent_relion_file(path, table, v, px, rng, optics=False)
+                m = cryomotl.RelionMotl(path, version=VERSION[v], pixel_size=px, binning=1.0)
+            else:
+                m = cryomotl.RelionMotl(motlutil.vary_index(table, variant // 3), version=VERSION[v], pixel_size=px, binning=1.0)
+            apply_hist(m, cs["hist"])
+            if op == "exportorig" or variant % 2 == 0:
+                return m, m.create_relion_df(use_original_entries=True)
+            out = os.path.join(ctx.workdir, "rorig_out_%d.star" % os.getpid())
+            m.write_out(out, write_optics=False, use_original_entries=True)
+            return m, out
+        got, err = core.call_guarded(chain)
+        if err is not None:
+            self.fail("call_raises", "import / list operations / export with the original entries: %s" % err, case, sig)
+            return
+        m, exported = got
+        if op == "exportorig":
+            fields = ["coord", "origin", "M", "subset", "cls"] + (["tomoName", "partName"] if named else ["tomo", "sid"])
+            self.compare_rows(project_relion(exported, v, named), case["rel"], fields, lambda f: "C03_OriginalEntries", case, sig,
+                              "table exported with the original entries")
+            return
+        if isinstance(exported, str):
+            back, err = core.call_guarded(api_load, exported, v, px, 1)
+        else:
+            back, err = core.call_guarded(api_import, exported, v, px, variant // 3)
+        if err is not None:
+            self.fail("call_raises", "import of the table exported with the original entries: %s" % err, case, sig)
+            return
+        self.compare_rows(project_motl(back)[0], case["back"], ["x", "s", "R", "tomo", "cls", "geom3"],
+                          lambda f: "C03_OriginalEntries", case, sig, "list imported from the table exported with the original entries")
 
     def file_case(self, case, df, v, px, rng, variant, sig):
         ctx = self.ctx
@@ -520,7 +567,7 @@ def gen_case(rng, n):
     v = rng.choice([30, 31, 40])
     px = rng.choice(PX)
     fmt = gen_fmt(rng, v)
-    mode = rng.choice(["export", "export", "import"])
+    mode = rng.choice(["export", "export", "import", "orig"])
     sids = rng.sample(range(1, 20 * n + 50), n)
     if rng.random() < 0.25:
         sids = [2 * s for s in sids] if rng.random() < 0.5 else [2 * s + 1 for s in sids]      # a single half-set
@@ -543,7 +590,7 @@ def gen_case(rng, n):
         rows.append(base)
     c = {"mode": mode, "v": v, "px": list(px), "fmt": fmt}
     c["parts" if mode == "export" else "rin"] = rows
-    if mode == "export":
+    if mode in ("export", "orig"):
         c["hist"] = gen_hist(rng, [r["cls"] for r in rows])
     return c
 
@@ -584,7 +631,7 @@ def run_seeded(ctx, sizes, nfiles):
             fh.write(json.dumps(c) + "\n")
     res = ctx.tlc("RelionCases", cfg(["INIT CaseInit", "NEXT Next"]), name="cases", env={"CASE_FILE": path}, workers=1)
     trs = res.tagged.get("TR", [])
-    want = sum(2 if c["mode"] == "export" else 1 for c in cases)
+    want = sum({"export": 2, "import": 1, "orig": 4}[c["mode"]] for c in cases)
     if len(trs) != want:
         raise core.MachineryError("RelionCases emitted %d transitions, expected %d" % (len(trs), want))
     r = Runner(ctx)
@@ -797,17 +844,17 @@ def run(ctx):
         res = ctx.tlc("MC_RelionConv", cfg(["INIT %s" % ctx.pick("QuickInit", "FullInit"), "NEXT Next"]), name="mc", workers=1)
         trs = res.tagged.get("TR", [])
         ops = {t["op"] for t in trs}
-        if ops != {"export", "reimport", "import"}:
+        if ops != {"export", "reimport", "import", "listops", "exportorig", "reimportorig"}:
             raise core.MachineryError("coverage hole: operations explored %s" % sorted(ops))
         ctx.exhaustive["L1_scope"] = True
         # a re-import transition does not carry the case: index the export transitions by their case
         keyed = sorted(trs, key=lambda t: core.stable_hash([ctx.seed, t["cs"], t["op"]]))
-        chosen = keyed[:ctx.pick(1200, 24000)]
+        chosen = keyed[:ctx.pick(1000, 24000)]
         ctx.exhaustive["L2_transitions"] = len(chosen) == len(keyed)
         ctx.extra["transitions_emitted"] = len(trs)
         ctx.extra["transitions_replayed"] = len(chosen)
         r = Runner(ctx)
-        nfile = ctx.pick(200, 2500)
+        nfile = ctx.pick(160, 2500)
         nf = 0
         for i, tr in enumerate(chosen):
             do_file = tr["op"] == "export" and nf < nfile
